@@ -99,6 +99,37 @@ fn main() {
             }
             std::process::exit(if bad == 0 { 0 } else { 3 });
         }
+        "inproc" => {
+            // Run cases of one check inside this process (no worker processes, no CPU watchdog):
+            // the mode used under Miri, which cannot spawn processes.  `--start K --samples N`
+            // selects cases K..K+N.  Prints one line per violation and a summary; exit 1 on violation.
+            if args.len() < 3 {
+                usage();
+            }
+            let check = match checks::get(&args[2]) {
+                Some(c) => c,
+                None => std::process::exit(2),
+            };
+            fw::install_panic_hook();
+            let mut out = fw::Out::default();
+            out.want_samples = 0;
+            let n = if samples == 0 { 50 } else { samples as u64 };
+            let mut violations = 0u64;
+            for k in start..start + n {
+                let mut rng = rng::Rng::for_case(seed, check.id(), k);
+                let r = fw::guarded(|| check.run_case(tier, k, &mut rng, &mut out));
+                if let Err((loc, msg)) = r {
+                    println!("VIOLATION property={} inproc case={} escaped panic at {}: {}", check.id(), k, loc, msg);
+                    violations += 1;
+                }
+                for v in out.violations.drain(..) {
+                    println!("VIOLATION property={} inproc case={} signature={} {}", check.id(), k, v.sig, v.detail.to_string().chars().take(400).collect::<String>());
+                    violations += 1;
+                }
+            }
+            println!("INPROC property={} cases={}..{} evaluations={} violations={} calls_monitored={}", check.id(), start, start + n, out.evals, violations, out.counters.get("calls_monitored").copied().unwrap_or(0));
+            std::process::exit(if violations == 0 { 0 } else { 1 });
+        }
         "run" => {
             if args.len() < 3 {
                 usage();
